@@ -314,8 +314,7 @@ def check_numbering_header(ctx):
   ts = ix.func("ttconv.srt.paragraph:SrtParagraph.to_string")
   ctx.unit(ts.module)
   numparam = ts.params[1] if len(ts.params) > 1 else None
-  ret = match.single_return(ts.node)
-  uses = ret is not None and numparam is not None and any(isinstance(n, ast.Name) and n.id == numparam for n in ast.walk(match.inline_single_locals(ts.node, ret.value)))
+  uses = numparam is not None and match.flows_to_return(ts.node, numparam)
   ctx.check(bool(uses), "SEQ-id", f"{ts.qualname}|prints the number it is given", ctx.where(ts.module, ts.node), f"`{numparam}` reaches the returned string", "SrtParagraph.to_string ignores the cue number it is given")
   pp = ix.func("ttconv.vtt.writer:VttContext.process_p")
   ctx.unit(pp.module)
